@@ -37,7 +37,7 @@ META = {
                    'False and a callable x fail-on-missing-result x default result x recording enabled/disabled = 480 rows) is enumerated '
                    'completely against a fixed program pair on all three cassettes; beyond it seeded random pairs (P, P\') with present and '
                    'absent requests, renamed aliases with fallback lists, 1-3 replays.  A reference model of the documented policy predicts '
-                   'every call; wrapped bodies are journaled (tripwire); a spy plus a byte snapshot prove the cassette is untouched. Also: the library\'s DEBUG logging switched on (logging is not behaviour), and a run-original body that itself calls recorded inputs and an output.'),
+                   'every call; wrapped bodies are journaled (tripwire); a spy plus a byte snapshot prove the cassette is untouched. Also: the library\'s DEBUG logging switched on (logging is not behaviour), and a run-original body that itself calls recorded inputs and an output. An input data handler that fails to restore a present entry in replay; the same call on the other instance of a resolver input.'),
     'level_note': 'Trusted: the reference policy model in this file (about 60 lines), the environment journal, byte snapshots of the stores. Programs without nested interceptions (run-original of an outer body re-enters interception).',
     'rule': ('evaluation = one (P, P\', options) pair replayed 1-3 times; non-trivial = P\' made at least one request that is absent from the '
              'recording or was answered through a fallback alias; distinct = distinct event-log digest. exhaustive=true refers to the 480-row option table.'),
